@@ -19,7 +19,8 @@ EXPLANATION = (
     "protocol features and is handed to the backend; (Q6) ring operations read the current memory snapshot at each "
     "operation and signal the call descriptor installed at that moment; (Q7) the Mutex/RwLock/Arc backend adapters "
     "delegate every method (C02/D3)."
-    " Also: (Q3) every success path of SET_VRING_ADDR that installs the addresses sets next_used, GET_VRING_BASE's reply read from constructor or literal; (Q4) the subset test is, bit by bit, exactly features within backend.features() and the protocol-feature store is the acknowledged value; (Q7-Q9) C13/M3, C02/D3 for the ring adapters, C02/D2 for SET_FEATURES.")
+    " Also: (Q3) every success path of SET_VRING_ADDR that installs the addresses sets next_used, GET_VRING_BASE's reply read from constructor or literal; (Q4) the subset test is, bit by bit, exactly features within backend.features() and the protocol-feature store is the acknowledged value; (Q7-Q9) C13/M3, C02/D3 for the ring adapters, C02/D2 for SET_FEATURES."
+    ' Round 4/5: (Q12) each VringState setter is exactly the queue operation it is named after, with its own parameter, on every path; (Q14) each ring-configuration setter is called only by the handler of its request; (Q13, Q15, Q16) C13/M4, C19/U5 ranges, C13/M5.')
 NOT_DECIDED = "Value ranges enforced inside virtio-queue (e.g. power-of-two sizes are silently ignored there), guest memory contents."
 
 PER_RING = ("set_vring_num", "set_vring_addr", "set_vring_base", "get_vring_base", "set_vring_kick", "set_vring_call",
@@ -67,6 +68,7 @@ LEAF = {
     "set_queue_event_idx": [("set_event_idx", [2])],
     "set_queue_ready": [("set_ready", [2])],
     "queue_next_avail": [("next_avail", [])],
+    "queue_used_idx": [("used_idx", [])],
     "set_queue_info": [("try_set_desc_table_address", [2]), ("try_set_avail_ring_address", [3]), ("try_set_used_ring_address", [4])],
 }
 
@@ -112,6 +114,7 @@ def q12(fb, chk, tag=""):
                     probs.append("%s is skipped on some path" % qn)
         chk.check(not probs, "Q12", key, "%s -> %s" % (name, [w[0] for w in want]),
                   "VringState::%s: %s" % (name, "; ".join(probs)), f.loc())
+    q12_flags(fb, chk, tag)
 
 
 # who may configure a ring: each queue setter of the ring interface is called by the handler of its own request only
@@ -141,6 +144,27 @@ def q14(fb, chk, tag=""):
                   "%s is also called by %s: the value configured by %s is overwritten by another request"
                   % (name, [o[0] for o in others], "/".join(sorted(allowed))) if seen[name] else "no caller of %s found" % name,
                   others[0][1] if others else None)
+
+
+def q12_flags(fb, chk, tag=""):
+    """The ring state's flag setters store the caller's value (a ring that was enabled can be disabled again)."""
+    for name, fld in (("set_enabled", "enabled"),):
+        fs = [f for f in fb.find(name=name, self_adt="VringState") if not f.trait]
+        if len(fs) != 1:
+            continue
+        f = fs[0]
+        sym = Sym(f, fb)
+        ws = [w for w in field_writes(f) if w["field"] == fld]
+        good = len(ws) == 1
+        detail = ""
+        if good:
+            v = sym.rvalue(ws[0]["rv"])
+            while v[0] in ("ref", "deref"):
+                v = v[1]
+            good = v[0] == "param"
+            detail = show(v)[:60]
+        chk.check(good, "Q12", "%sstate:%s" % (tag, name), "%s <- the parameter" % fld,
+                  "VringState::%s stores `%s` into `%s`, not the value it was given: the flag cannot be taken back" % (name, detail, fld), f.loc())
 
 
 def thorough(ctx, chk):
